@@ -260,4 +260,34 @@ CHECKS = {
              "more than 5 quiescent checks (bubble) / grants and refusals both occurred (stress) / always (sequential, pool); distinct = distinct (config, op list).",
         assumptions=COMMON_ASSUME,
     ),
+    "C05": dict(
+        pkg="c05", race=False, shards=(4, 16), timeout_s=(600, 3000),
+        technique="recording limit (scripted or wrapping a real algorithm) + equality monitor on the strategy's enforced limit and partition shares after construction and after every sample-driven update (synctest clock closes windows deterministically)",
+        level_text="DefaultLimiter over Simple/Precise/Lookup/Predicate with a recording core.Limit whose estimate trajectory contains 0, negative, "
+                   "repeated and large values (or a real AIMD/Vegas/Gradient2 underneath): right after construction and after every completion during which "
+                   "the recorder received an OnSample, the strategy's limit must equal max(1, the estimate the recorder returned) and every partition "
+                   "share max(1, ceil(limit x fraction)) of that same value; the lookup strategy's unknown bucket is probed behaviourally. A concurrent "
+                   "variant (8 goroutines completing) checks the equality at quiescence. Exploration.",
+        require=["enforcement_checks", "share_checks", "updates_observed", "unknown_bucket_probes", "concurrent_scenarios",
+                 "scenarios/simple", "scenarios/precise", "scenarios/lookup", "scenarios/predicate"],
+        rule="scenario = (strategy kind with dyadic fractions, scripted trajectory or real algorithm, windowSize 10-13, 150-550 driver steps or 8x40 "
+             "concurrent iterations); non-trivial = at least two updates observed; distinct = distinct (config, update count).",
+        assumptions=COMMON_ASSUME + ["fractions are k/32 so shares are exact in integer arithmetic"],
+    ),
+    "C01": dict(
+        pkg="c01", race=False, shards=(4, 16), timeout_s=(600, 3600), parallel=4,
+        technique="porcupine linearizability check of recorded client-boundary histories against a counting gate (held, limit) + offline interval sweep (lower/upper bounds of simultaneous holders) over long histories",
+        level_text="M1: 2-8 goroutines drive DefaultLimiter over Simple/Precise (scripted estimate trajectory incl. 0/negative/repeats, or AIMD/Gradient2 "
+                   "underneath, window pre-filled so sample-driven SetLimit happens inside the history) and PreciseStrategy directly (with concurrent "
+                   "SetLimit); call/return events on one logical clock, completions split into REL and SET at the recorded entry of the algorithm's "
+                   "OnSample; porcupine decides whether some linearization is a legal run of an atomic counting gate (Illegal = violation with the history, "
+                   "Unknown = inconclusive). M2: 2-16 goroutines x 20k-100k ops at a constant limit 1-3: holders lower bound (grant returned .. completion "
+                   "called) must never exceed the limit and every refused call must overlap an instant where the upper bound (acquire called .. completion "
+                   "returned) reached the limit. A verif yield inside the simple strategy's check-then-add is active in half of the runs. Exploration of "
+                   "the interleavings a 16-core scheduler produces.",
+        require=["m1_histories", "m1_histories_linearizable", "m1_overlapping_operation_pairs", "m1_sample_driven_limit_updates", "m2_runs", "m2_refusals_checked"],
+        rule="M1 history = (target, algorithm, 2-8 goroutines x 2-10 pre-drawn ops); M2 run = (target, limit, goroutines, hold style); non-trivial = at least "
+             "one overlapping operation pair (M1) / grants and refusals both occurred (M2); distinct = distinct (config, op count, overlaps).",
+        assumptions=COMMON_ASSUME + ["porcupine v1.3.0; checker timeout 10 s = inconclusive", "logical timestamps come from one atomic counter incremented immediately before the call and immediately after the return"],
+    ),
 }
